@@ -149,6 +149,10 @@ type World struct {
 	Deadlock   bool
 	DeadlockAt []string
 	LockWaits  int    // lock acquisitions that had to park (the lock was held by a task parked at a seam)
+	Spin       string // non-empty: a task executed code under test for 20 s of wall clock without reaching a seam; the world was abandoned
+	SpinSite   string
+	Runaway    string // non-empty: a task was still being scheduled runawayAfterAbort steps after the world was aborted
+	abortSteps int
 	LockStall  string // non-empty: a task blocked on a real lock held by a parked task; the world was abandoned
 	HitStepCap bool
 	schedHash  hashWriter
@@ -506,6 +510,18 @@ func (w *World) Run() {
 			w.cur = nil
 			w.Abort("step cap")
 		}
+		if w.aborting {
+			// every seam fails from the abort on, so tasks unwind within a few steps; one that keeps coming back is in a
+			// loop that ignores the failures of everything it calls. The world is abandoned with that task parked.
+			w.abortSteps++
+			if w.abortSteps > runawayAfterAbort {
+				w.cur = nil
+				w.Runaway = t.name + "@" + t.site
+				w.HitStepCap = true
+				w.Logf("runaway", "%s", w.Runaway)
+				return
+			}
+		}
 		w.cur = t
 		t.state = stRunnable
 		t.wake.send(0)
@@ -526,13 +542,32 @@ var reportedStuck = map[string]bool{}
 // awaitYield waits for the running task to hand the baton back. It returns false if the task is blocked on a real lock
 // (a deadlock of the code under test that no simulated step can resolve): the world is then abandoned as it stands.
 func (w *World) awaitYield(t *Task) bool {
+	waited := 0
 	for {
 		if _, ok := w.yieldCh.recvTimeout(lockStallTimeout); ok {
 			return true
 		}
+		waited++
 		{
 			site := lockedGoroutineSite()
 			if site == "" {
+				if waited >= spinAfterTimeouts {
+					if spin := spinningTaskSite(); spin != "" {
+						// the running task has been executing code of the package under test for 20 s of wall clock without
+						// reaching a single seam (no read, write, flush, lock, pool or clock call): a loop that no input ends
+						w.cur = nil
+						w.Spin = t.name + " spinning in " + spin
+						w.SpinSite = spin
+						SpinLeaked = true
+						if !w.Deadlock {
+							w.Deadlock = true
+							w.DeadlockAt = append(w.DeadlockAt, t.name+"@spin:"+spin)
+							w.Logf("deadlock", "%s", strings.Join(w.DeadlockAt, ","))
+						}
+						w.aborting = true
+						return false
+					}
+				}
 				continue // slow, not stuck
 			}
 			w.cur = nil
@@ -551,6 +586,45 @@ func (w *World) awaitYield(t *Task) bool {
 			return false
 		}
 	}
+}
+
+// spinAfterTimeouts x lockStallTimeout = how long a task may run without reaching a seam before its stack is examined.
+const spinAfterTimeouts = 5
+
+// runawayAfterAbort: steps granted to unwinding after an abort (step cap, deadlock) before the world is abandoned.
+const runawayAfterAbort = 100000
+
+// SpinLeaked: a world was abandoned while one of its tasks was still executing (a goroutine cannot be stopped from
+// outside). The worker finishes what it has and exits; it does not start further worlds next to a spinning goroutine.
+var SpinLeaked bool
+
+// spinningTaskSite finds a task goroutine that is executing (not parked) with a frame of the package under test
+// innermost of all repository frames - i.e. not inside one of the simulator's own seams - and names that function.
+func spinningTaskSite() string {
+	buf := make([]byte, 1<<20)
+	buf = buf[:runtime.Stack(buf, true)]
+	for _, g := range strings.Split(string(buf), "\n\n") {
+		head, _, _ := strings.Cut(g, "\n")
+		if !strings.Contains(head, "[running") && !strings.Contains(head, "[runnable") {
+			continue
+		}
+		if !strings.Contains(g, "verifsim.(*World).Spawn") {
+			continue
+		}
+		for _, line := range strings.Split(g, "\n") {
+			if strings.HasPrefix(line, "connectrpc.com/vanguard/internal/verifsim") {
+				break // the innermost repository frame is the simulator's: the harness is slow, the code under test is not looping
+			}
+			if strings.HasPrefix(line, "connectrpc.com/vanguard.") {
+				fn, _, _ := strings.Cut(line, "(0x")
+				if i := strings.LastIndex(fn, "({"); i > 0 {
+					fn = fn[:i]
+				}
+				return strings.TrimPrefix(fn, "connectrpc.com/vanguard.")
+			}
+		}
+	}
+	return ""
 }
 
 // lockedGoroutineSite finds a task goroutine parked inside sync.Mutex/RWMutex.Lock and names the locking call site.
